@@ -2,6 +2,7 @@
 import json
 import random
 
+from vlib import clip as vclip
 from vlib import Broken, Verdict, read_ndjson, write_ndjson, require_coverage
 
 TRACE_CFG = "SPECIFICATION Spec\nCHECK_DEADLOCK TRUE\n"
@@ -16,7 +17,7 @@ def normalise(o):
     scn = o.get("scn") or {}
     return {"id": scn.get("id", -1), "class": scn.get("class", ""), "name": scn.get("name", ""), "t": scn.get("t", ""), "recv": scn.get("recv", ""),
             "sub": scn.get("sub", ""), "escapes": scn.get("escapes", False), "result": "crashed" if o.get("crashed") else "hung",
-            "err": ("CRASHED: " if o.get("crashed") else "HUNG: " if o.get("hung") else "HARNESS: " + str(o.get("harness_error"))) + (o.get("stderr") or "")[-1200:],
+            "err": ("CRASHED: " if o.get("crashed") else "HUNG: " if o.get("hung") else "HARNESS: " + str(o.get("harness_error"))) + vclip(o.get("stderr"), 1200),
             "changed": [], "events": [], "leak": False, "reqs": 0, "scn": scn}
 
 
